@@ -178,6 +178,23 @@ ExpHvcat(e) ==
                THEN (IF p[2] < e.A.n THEN Val(e.A, p[1], p[2]) ELSE Val(e.B, p[1], p[2] - e.A.n))
                ELSE (IF p[2] < e.A.n THEN Val(e.C, p[1] - e.A.m, p[2]) ELSE Val(e.D, p[1] - e.A.m, p[2] - e.A.n))]
 
+\* hvcat of a general block grid: the blocks of a block row share their height, those of a block column their width
+ExpHvcatG(e) ==
+  LET B == e.blocks
+      nr == Len(B)
+      nc == Len(B[1])
+      consistent == /\ \A i \in 1..nr : Len(B[i]) = nc
+                    /\ \A i \in 1..nr, j \in 1..nc : B[i][j].m = B[i][1].m /\ B[i][j].n = B[1][j].n
+      RECURSIVE RowOff(_), ColOff(_)
+      RowOff(i) == IF i = 1 THEN 0 ELSE RowOff(i - 1) + B[i - 1][1].m
+      ColOff(j) == IF j = 1 THEN 0 ELSE ColOff(j - 1) + B[1][j - 1].n
+      All == UNION { Shift(B[i][j], RowOff(i), ColOff(j)) : i \in 1..nr, j \in 1..nc }
+      Owner(p) == CHOOSE ij \in (1..nr) \X (1..nc) : p \in Shift(B[ij[1]][ij[2]], RowOff(ij[1]), ColOff(ij[2]))
+  IN IF ~consistent THEN ~e.ok
+     ELSE /\ e.ok /\ Canonical(e.out)
+          /\ e.out.m = RowOff(nr) + B[nr][1].m /\ e.out.n = ColOff(nc) + B[1][nc].n
+          /\ SMap(e.out) = [p \in All |-> LET ij == Owner(p) IN Val(B[ij[1]][ij[2]], p[1] - RowOff(ij[1]), p[2] - ColOff(ij[2]))]
+
 ExpEqualSparsity(e) ==
   e.res <=> (e.A.m = e.B.m /\ e.A.n = e.B.n /\ e.A.colptr = e.B.colptr /\ e.A.rowval = e.B.rowval)
 
@@ -205,6 +222,7 @@ CheckOp(e) ==
     [] e.name = "vcat"         -> ExpVcat(e)
     [] e.name = "blockdiag"    -> ExpBlockDiag(e)
     [] e.name = "hvcat"        -> ExpHvcat(e)
+    [] e.name = "hvcatg"       -> ExpHvcatG(e)
     [] e.name = "is_equal_sparsity" -> ExpEqualSparsity(e)
     [] e.name = "nnz"          -> ExpNnz(e)
 =============================================================================
